@@ -162,7 +162,7 @@ class DhtmlxGantt:
             },
             ensure_ascii=False,
             indent=2
-        )
+        ).replace('</', '<\\/')  # JSON is embedded into <script>: task names must not be able to close it
 
     def to_html(self):
 
